@@ -73,6 +73,9 @@ loom::thread_local! {
 }
 pub static LZ2_LIVE: AtomicUsize = AtomicUsize::new(0);
 pub static LZ2_INIT: AtomicUsize = AtomicUsize::new(0);
+pub static LZ3_INIT: AtomicUsize = AtomicUsize::new(0);
+/// the atomic of the running iteration, for the initialiser of LZ3
+pub static X_SLOT: Mutex<Option<Arc<loom::sync::atomic::AtomicUsize>>> = Mutex::new(None);
 /// order in which the two plain lazy statics were initialised / dropped in the current iteration
 pub static LZ_INIT_ORDER: Mutex<Vec<usize>> = Mutex::new(Vec::new());
 pub static LZ_DROP_ORDER: Mutex<Vec<usize>> = Mutex::new(Vec::new());
@@ -94,6 +97,22 @@ impl LzSlow {
         LzSlow { cell }
     }
 }
+impl LzSlow {
+    /// an initialiser whose scheduling point is an RMW on a shared atomic instead of a yield
+    fn new_rmw() -> LzSlow {
+        LZ2_LIVE.fetch_add(1, SeqCst);
+        LZ3_INIT.fetch_add(1, SeqCst);
+        let cell = loom::cell::UnsafeCell::new(0);
+        // the program's own atomic: the other threads' loads / stores of it are dependent operations, so the initialiser
+        // can be pre-empted here
+        let x = X_SLOT.lock().unwrap().clone();
+        if let Some(x) = x {
+            x.fetch_add(2, SeqCst);
+        }
+        cell.with_mut(|p| unsafe { *p = 7 });
+        LzSlow { cell }
+    }
+}
 impl Drop for LzSlow {
     fn drop(&mut self) {
         LZ2_LIVE.fetch_sub(1, SeqCst);
@@ -103,6 +122,7 @@ loom::lazy_static! {
     static ref LZ0: LzVal = LzVal::new(0);
     static ref LZ1: LzVal = LzVal::new(1);
     static ref LZ2: LzSlow = LzSlow::new();
+    static ref LZ3: LzSlow = LzSlow::new_rmw();
 }
 
 #[derive(Clone, Copy, Debug, PartialEq, Eq, Hash, Serialize, Deserialize)]
@@ -113,6 +133,8 @@ pub enum StOp {
     Lz(u8),
     /// the lazy static whose initialiser yields
     LzSlow,
+    /// the lazy static whose initialiser performs an RMW on a shared atomic (a scheduling point that is not a yield)
+    LzRmw,
     AStore,
     ALoad,
 }
@@ -176,6 +198,14 @@ fn exec(ops: &[StOp], tid: usize, x: &loom::sync::atomic::AtomicUsize, addrs: &M
                 }
                 addrs.lock().unwrap().push((2, v as *const _ as usize));
             }
+            StOp::LzRmw => {
+                let v: &LzSlow = &*LZ3;
+                let val = v.cell.with(|p| unsafe { *p });
+                if val != 7 {
+                    errs.lock().unwrap().push("lazy value (RMW initialiser) not initialised".into());
+                }
+                addrs.lock().unwrap().push((3, v as *const _ as usize));
+            }
             StOp::AStore => x.store(1, SeqCst),
             StOp::ALoad => {
                 x.load(SeqCst);
@@ -227,7 +257,7 @@ pub fn run_loom(p: &StProg, iter_cap: usize) -> SRes {
                 e.push(format!("{}: iteration {} initialised {:?} and dropped {:?}", LZ_ORDER, it, io, dord));
             }
             // "initialised at most once per execution" also holds for an initialiser that can be pre-empted
-            let inits = LZ2_INIT.swap(0, SeqCst);
+            let inits = LZ2_INIT.swap(0, SeqCst).max(LZ3_INIT.swap(0, SeqCst));
             if inits > 1 && !e.iter().any(|x| x.starts_with(LZ_TWICE)) {
                 e.push(format!("{}: {} initialisations in iteration {}", LZ_TWICE, inits, it));
             }
@@ -254,6 +284,7 @@ pub fn run_loom(p: &StProg, iter_cap: usize) -> SRes {
     let (e2, i2, ev2) = (errs.clone(), iters.clone(), events.clone());
     SLOW_DROP.store(p.slow_drop, SeqCst);
     LZ2_INIT.store(0, SeqCst);
+    LZ3_INIT.store(0, SeqCst);
     LZ_INIT_ORDER.lock().unwrap().clear();
     LZ_DROP_ORDER.lock().unwrap().clear();
     let res = std::panic::catch_unwind(std::panic::AssertUnwindSafe(|| {
@@ -264,6 +295,7 @@ pub fn run_loom(p: &StProg, iter_cap: usize) -> SRes {
                 panic!("{}", ITER_CAP_MSG);
             }
             let x = Arc::new(loom::sync::atomic::AtomicUsize::new(0));
+            *X_SLOT.lock().unwrap() = Some(x.clone());
             let addrs: Arc<Mutex<Vec<(u8, usize)>>> = Arc::new(Mutex::new(Vec::new()));
             let base = [TL_DROP[0].load(SeqCst), TL_DROP[1].load(SeqCst)];
             // `join` returns after the thread has exited: the destructors of its thread-locals have run
@@ -299,7 +331,7 @@ pub fn run_loom(p: &StProg, iter_cap: usize) -> SRes {
                 joined_check(joined);
             }
             let a = addrs.lock().unwrap();
-            for k in 0..3u8 {
+            for k in 0..4u8 {
                 let mut it = a.iter().filter(|(kk, _)| *kk == k).map(|(_, ad)| *ad);
                 if let Some(first) = it.next() {
                     if it.any(|ad| ad != first) {
@@ -320,7 +352,7 @@ pub fn run_loom(p: &StProg, iter_cap: usize) -> SRes {
 }
 
 fn alphabet() -> Vec<StOp> {
-    vec![StOp::Tl(0), StOp::Tl(1), StOp::TlNested, StOp::TlTry(0), StOp::Lz(0), StOp::Lz(1), StOp::LzSlow, StOp::AStore, StOp::ALoad]
+    vec![StOp::Tl(0), StOp::Tl(1), StOp::TlNested, StOp::TlTry(0), StOp::Lz(0), StOp::Lz(1), StOp::LzSlow, StOp::LzRmw, StOp::AStore, StOp::ALoad]
 }
 
 fn core() -> &'static Vec<StProg> {
@@ -359,6 +391,10 @@ fn core() -> &'static Vec<StProg> {
         v.push(StProg { threads: vec![vec![StOp::LzSlow], vec![StOp::LzSlow], vec![StOp::LzSlow]], join_first: false, slow_drop: false });
         v.push(StProg { threads: vec![vec![StOp::LzSlow, StOp::LzSlow], vec![StOp::LzSlow], vec![StOp::ALoad, StOp::LzSlow]], join_first: false, slow_drop: false });
         v.push(StProg { threads: vec![vec![StOp::Tl(0)], vec![StOp::Tl(0)], vec![StOp::Tl(0)], vec![StOp::Tl(0)]], join_first: true, slow_drop: false });
+        // racing first accesses to the lazy static whose initialiser has a scheduling point that is not a yield
+        v.push(StProg { threads: vec![vec![StOp::LzRmw], vec![StOp::AStore, StOp::LzRmw]], join_first: false, slow_drop: false });
+        v.push(StProg { threads: vec![vec![StOp::ALoad, StOp::LzRmw], vec![StOp::LzRmw], vec![StOp::AStore, StOp::LzRmw]], join_first: false, slow_drop: false });
+        v.push(StProg { threads: vec![vec![StOp::ALoad, StOp::LzRmw], vec![StOp::AStore, StOp::LzRmw, StOp::LzRmw]], join_first: false, slow_drop: false });
         // destructors with a scheduling point: the joiner must still find them done
         for join_first in [false, true] {
             v.push(StProg { threads: vec![vec![], vec![StOp::Tl(0)]], join_first, slow_drop: true });
